@@ -206,11 +206,27 @@ class Check(object):
         self.mc_runs.append({"module": module, "cfg": r["cfg"], "distinct": r["distinct"],
                              "generated": r["states"], "depth": r["depth"], "wall_s": r["wall_s"],
                              "violated": r["violated"]})
+        if "was changed while it is specified as UNCHANGED" in r["out"]:
+            self.machinery_errors.append("TLC: %s/%s has an action with contradictory primed variables (branch silently "
+                                         "disabled)" % (module, cfg))
         if r["violated"]:
             self.machinery_errors.append("TLC: %s/%s violates %s (the specification itself is inconsistent "
                                          "with its contract; this is a machinery defect, not a verdict "
                                          "about the code)" % (module, cfg, r["violated"]))
         return r
+
+    def controls(self, *modules):
+        """Negative controls (mxv/controls.py): each seeded model bug must be reported by TLC."""
+        from . import controls
+        res = controls.run(modules)
+        lst = self.notes.setdefault("negative_controls", [])
+        for r in res:
+            lst.append({k: r[k] for k in ("module", "cfg", "override", "expected", "violated", "wall_s")})
+            if not r["ok"]:
+                self.machinery_errors.append("negative control failed: %s/%s with %s: expected a violation of %s, TLC "
+                                             "reported %s (the model or its contract has become vacuous)" % (
+                                                 r["module"], r["cfg"], r["override"], r["expected"], r["violated"]))
+        return res
 
     # ---- real executions + TLC verdicts
     def run_and_validate(self, tasks, trace_module, label="", nontrivial=None):
